@@ -208,9 +208,11 @@ impl TimedOverhead {
     { unimplemented!() }
 }
 
+// number of samples whose per-input counter data the collection holds (one row per stored sample)
+pub uninterp spec fn counter_rows(c: CounterCollection) -> int;
 impl CounterCollection {
     #[verifier::external_body]
-    pub fn clear_input_counts(&mut self) { unimplemented!() }
+    pub fn clear_input_counts(&mut self) ensures counter_rows(*final(self)) == 0 { unimplemented!() }
 }
 
 impl RawSample {
@@ -256,7 +258,9 @@ pub fn latest_end_of(raw_samples: &[RawSample]) -> (r: Timestamp)
 { unimplemented!() }
 
 #[verifier::external_body]
-pub fn push_input_counts(counters: &mut CounterCollection, raw_sample: &RawSample, sample_size: u32) { unimplemented!() }
+pub fn push_input_counts(counters: &mut CounterCollection, raw_sample: &RawSample, sample_size: u32)
+    ensures counter_rows(*final(counters)) == counter_rows(*old(counters)) + 1,
+{ unimplemented!() }
 
 #[verifier::external_body]
 pub fn ignore_alloc_reset() { unimplemented!() }
@@ -356,13 +360,15 @@ pub assume_specification[ <FineDuration as core::default::Default>::default ]() 
             ensures r == mode_size(self),
         """),
     ])
-    secs += wrap_impl("impl<'a> BenchOptions<'a>", [
-        code_fn(o, o.find_fn("has_samples", impl=r"impl<'a> BenchOptions<'a>"), "BenchOptions::has_samples", ret="r",
-                pair=["verif_loop_opts::has_samples"], assume="has_samples" not in verify,
-                clauses=("""
+    # BenchOptions::has_samples, if the loop (still) uses it
+    if re.search(r"\bhas_samples\s*\(", b.find_fn("bench_loop_threaded", impl=r"impl<'a> BenchContext<'a>").body_text()):
+        secs += wrap_impl("impl<'a> BenchOptions<'a>", [
+            code_fn(o, o.find_fn("has_samples", impl=r"impl<'a> BenchOptions<'a>"), "BenchOptions::has_samples", ret="r",
+                    pair=["verif_loop_opts::has_samples"], assume="has_samples" not in verify,
+                    clauses=("""
             ensures r == !(self.sample_count == Some(0u32) || self.sample_size == Some(0u32)),
         """ if "has_samples" in verify else "")),
-    ])
+        ])
     secs += wrap_impl("impl SampleCollection", [
         code_fn(sm, sm.find_fn("clear", impl=r"impl SampleCollection\b"), "SampleCollection::clear", assume="clear" not in verify,
                 clauses=("""
@@ -425,6 +431,8 @@ pub assume_specification[ <FineDuration as core::default::Default>::default ]() 
 #   EL    elapsed-time recurrence                                                             C04
 #   MAXT  max_time also bounds the tuning rounds                                              C19
 #   TUNE  sample-size doubling, threshold, first recorded round                               C19
+#   CNT   per-input counter data is held for exactly the recorded samples                      C19
+#   ZERO  nothing runs when n = 0 or s = 0 (asserted right after the early return)              C03
 #   PUB   the sample size published for reporting is the recorded samples' size (PUBL: carried through the loop)  C03 C19
 #   NOTUNE / ISTUNE  precondition selecting explicit-size-or-test runs / tuned runs
 def sel(text: str, enabled: set) -> str:
@@ -485,12 +493,13 @@ pub open spec fn cont(el: int, rem: Option<u32>, min: int, max: int) -> bool {
 pub open spec fn stay(el: int, rem: Option<u32>, min: int, max: int) -> bool {
     cont(el, rem, min, max) //#CONT
     (min <= el < max ==> (match rem { Some(r) => r > 0, None => true })) //#CONT3
-    true //#CONT19
+    true //#CONT19,CONT0
 }
 pub open spec fn stop(el: int, rem: Option<u32>, min: int, max: int) -> bool {
     !cont(el, rem, min, max) //#CONT
     (el < max ==> rem == Some(0u32)) //#CONT3
     (rem is None ==> el >= max) //#CONT19
+    true //#CONT0
 }
 
 // elapsed time after a round (C04): from the initial start timestamp to the latest end
@@ -581,6 +590,7 @@ LOOP_CLAUSES = r"""
     requires
         1 <= old(self).thread_count.get() <= 0xffff_ffff,
         old(self).samples.time_samples@.len() == 0 && old(self).samples.sample_size == 0,
+        counter_rows(old(self).counters) == 0, //#CNT
         !(initial_mode_of(old(self).shared_context.action, *old(self).options) is Tune), //#NOTUNE
         initial_mode_of(old(self).shared_context.action, *old(self).options) is Tune, //#ISTUNE
 """
@@ -601,6 +611,8 @@ OUTER_INV = r"""
         !is_test ==> link(h, *self, cx0, current_mode, mode0, rem_samples, elapsed_picos, calls, t),
         is_test ==> h.rounds == 0 && calls == 0 && self.samples.time_samples@.len() == 0 && rem_samples is None && elapsed_picos == 0,
         is_test ==> self.did_run,
+        // per-input counter data is held for exactly the recorded samples (discarded rounds leave none behind)
+        counter_rows(self.counters) == self.samples.time_samples@.len(), //#CNT
         // only when the code publishes the sample size on mode changes instead of at the top of
         // every round (detected from the text, see build_loop_file)
         self.samples.sample_size == mode_size(current_mode), //#PROTOB
@@ -619,6 +631,7 @@ INNER_INV = r"""
         raw_samples@.len() == t, 1 <= t <= 0xffff_ffff,
         0 <= it.index@ <= t,
         self.samples.time_samples@.len() == rec_before + it.index@,
+        counter_rows(self.counters) == rec_before + it.index@, //#CNT
         rem_samples == (match rem_b { None => None::<u32>, Some(v) => Some(sat_sub(v as int, it.index@) as u32) }), //#REM
         (rem_samples is None) == (rem_b is None),
         self.samples.sample_size == ss_before,
@@ -626,6 +639,9 @@ INNER_INV = r"""
 """
 
 GHOST_DECL = r"""
+// C03: "when n = 0, s = 0 or max_time = 0 it is not called at all": whoever gets here (past the early return) has none of them zero
+// (max_time: the loop invariant max > 0 below), in test mode as in bench mode
+proof { assert(self.options.sample_count != Some(0u32) && self.options.sample_size != Some(0u32)); } //#ZERO
 let ghost cx0 = *self;
 let ghost t: int = thread_count as int;
 let ghost n: int = n_of(*self.options);
@@ -1010,7 +1026,7 @@ def loop_files(S: Sources, prefix: str, enabled: set, tune: bool, errs: list):
         try:
             files.append(VerusFile(f"{prefix}_canary_{c[0]}", build_loop_file(S, enabled, verify, canary=c), expect_fail=True, rlimit=100))
         except rsx.LostAnchor as e:
-            errs.append(f"canary {c[0]} could not be placed: {e}")
+            errs.append(f"note: vacuity canary {c[0]} could not be placed in the current text (the other canaries still guard the file): {e}")
     return files
 
 
@@ -1020,12 +1036,17 @@ VERIFY = {
     "C03": {"has_samples", "initial_mode", "mode_fns"},
     "C04": set(),
     "C19": {"clear", "initial_mode", "mode_fns"},
+    "C05": set(),
 }
 
 TAGS = {
-    "C03": {"CONT3", "REM", "NOTUNE", "PUB"},
+    "C03": {"CONT3", "REM", "NOTUNE", "PUB", "ZERO"},
     "C04": {"CONT", "REM", "EL", "NOTUNE"},
-    "C19": {"CONT19", "MAXT", "TUNE", "ISTUNE", "PUB"},
+    "C19": {"CONT19", "MAXT", "TUNE", "ISTUNE", "PUB", "CNT"},
+    # C05 divides by the published sample size: it must be the size the recorded samples were taken with. Only runs with an
+    # explicit sample size: for tuned runs the accounting of recorded samples needs the TUNE conjuncts, which are C19's statement
+    # (a change that breaks only the tuning rule must not alarm C05); tuned runs are covered by C19's own file.
+    "C05": {"NOTUNE", "PUB", "CONT0"},
 }
 
 
@@ -1211,7 +1232,7 @@ LOOP_ASSUMPTIONS = [
     "ASSUMED contract slowest_of / latest_end_of: return an element of the round (the slowest / the latest end); they replace whatever `;`-free expression is bound to slowest_sample / last_end, and that expression's text is checked by the bounded Kani shims verif_loop_pick::* (C04, C19)",
     "ASSUMED Timer::precision() > 0 (measure_precision discards zero samples), Timestamp::start / duration_since and RawSample::duration as uninterpreted clock functions",
     "ASSUMED BenchOptions::min_time()/max_time() return the options in picoseconds (checked by Kani verif_loop_opts::time_accessors)",
-    "push_input_counts, CounterCollection::clear_input_counts, TimedOverhead::total_overhead, ThreadAllocTallyMap::is_empty, ignore_alloc_reset: opaque, no contract used",
+    "push_input_counts / CounterCollection::clear_input_counts: ASSUMED to add one row / drop all rows of per-input counter data (counter_rows, uninterpreted); TimedOverhead::total_overhead, ThreadAllocTallyMap::is_empty, ignore_alloc_reset: opaque, no contract used",
     "termination of the loop is NOT proved (#[verifier::exec_allows_no_decreases_clause]); partial correctness only",
     "precondition: the BenchContext is fresh (no recorded samples, sample_size field 0; checked for BenchContext::new by Kani verif_loop_mode::initial_mode) and thread_count fits in u32",
     "generic parameters <I, O> and the three closure parameters are dropped from the signature (unused once sample_recorder is replaced)",
